@@ -307,8 +307,10 @@ def check_long_series(rec, inp):
     n, m = int(inp["n"]), int(inp["m"])
     rng = np.random.default_rng(int(inp["seed"]))
     x = rng.normal(size=n)
-    for c in sorted(rng.choice(np.arange(100, n - 100), size=6, replace=False)):
-        x[c:] += rng.choice([-1.0, 0.8, 1.2])
+    # mostly noise (the score of a long interval is then a rough curve with many local maxima: nothing but the complete maximisation over all
+    # splits finds its maximum) and two small shifts
+    x[n // 3:] += 0.15
+    x[int(0.8 * n):] -= 0.2
     X = x.reshape(-1, 1)
     det, err = O.attempt(lambda: SeededBinarySegmentation(change_score=CUSUM(), min_segment_length=m, max_interval_length=n, threshold_scale=2.0).fit(X), seconds=120.0)
     if err is None:
@@ -369,9 +371,10 @@ def run(tier="quick", seed=0, repo="/repo"):
     bound = {}
     try:
         _enumerate(rec, tier, seed, bound)
-        inp = {"check": "long", "n": 3200, "m": 5, "seed": seed}
-        rec.case(("long", 3200, 5), check_long_series(rec, inp), None)
-        bound["text"] = bound.get("text", "") + "; one series of n = 3200 with max_interval_length = n (CUSUM): every table row against the vectorised maximum over all splits"
+        for sd in (seed, seed + 1, seed + 2):
+            inp = {"check": "long", "n": 3200, "m": 5, "seed": sd}
+            rec.case(("long", 3200, 5, sd), check_long_series(rec, inp), None)
+        bound["text"] = bound.get("text", "") + "; three noise-dominated series of n = 3200 with max_interval_length = n (CUSUM): every table row against the vectorised maximum over all splits"
     except O.Abort:
         bound["text"] = bound.get("text", "") + " [enumeration stopped early: calls into the real code did not terminate]"
     kinds = {}
